@@ -84,6 +84,12 @@ func c16FillRanker(mr *heur.MoveRanker, kind string, b *board.Board, ms *move.St
 
 // c16Pick runs the picker to exhaustion and judges the yielded sequence.
 func c16Pick(b *board.Board, ms *move.Store, mr *heur.MoveRanker, hs *stack.Stack[heur.StackMove], hash uint16, gen []uint16) string {
+	// the picker's frame lies on top of 0, 9 or 18 moves of enclosing frames, as at every node below the root of a search
+	ms.Push()
+	defer ms.Pop()
+	for k := 0; k < int(hash%3)*9; k++ {
+		ms.Alloc(move.Move(hash ^ uint16(k*977)))
+	}
 	ms.Push()
 	defer ms.Pop()
 	pck := picker.New(b, move.Move(hash), ms, mr, hs)
@@ -271,7 +277,7 @@ func runC16(r *ev.Run) {
 	r.Set("positions", positions.Load())
 	r.Set("positions_with_all_32768_hash_encodings", allEnc.Load())
 	r.Set("band_states", band)
-	r.Set("rule", "tree nodes below the root corpus and the rights/ep-bearing positions of KPkp and KRkr x hash move in {0} + every generated move + 64 foreign encodings (all 32768 encodings on a seed-selected quarter of the roots) x ranker states {fresh, saturated up, saturated down, alternating} produced by real FailHigh calls x history stack {empty, two moves}; oracle: yielded multiset == generated set, hash move first whenever generated, every weight in its band and never a sentinel; band: reachability fix-point over the stored value of each of the three history tables under all 65536 bonuses of the real Add, starting from 0, every reachable value must lie in +-MaxHistory; non-trivial = runs whose hash move is a generated move")
+	r.Set("rule", "tree nodes below the root corpus and the rights/ep-bearing positions of KPkp and KRkr x hash move in {0} + every generated move + 64 foreign encodings (all 32768 encodings on a seed-selected quarter of the roots) x ranker states {fresh, saturated up, saturated down, alternating} produced by real FailHigh calls x history stack {empty, two moves} x picker frame on top of {0, 9, 18} moves of enclosing frames in the move store; oracle: yielded multiset == generated set, hash move first whenever generated, every weight in its band and never a sentinel; band: reachability fix-point over the stored value of each of the three history tables under all 65536 bonuses of the real Add, starting from 0, every reachable value must lie in +-MaxHistory; non-trivial = runs whose hash move is a generated move")
 }
 
 // c16Band explores, for each table, the set of stored values reachable from 0
